@@ -8,6 +8,7 @@ import harness.C02 as K
 import pgradd.GroupAdd.Scheme as SC
 import pgradd.GroupAdd.Library as LB
 from pmutt import constants as _c
+from pgradd.Error import ReadOnlyDataError
 
 PROPERTY = 'C15'
 FUNCTIONS_ENCODED = [
@@ -22,7 +23,8 @@ MOLS = {'M0': [6, 1], 'M1': [8, 1, 1]}          # abstract molecules: atomic num
 EXPECT = {'M0': {'C(H)': 1}, 'M1': {'O(H)2': 1}}
 DATA = {'C(H)': (1.5, 2.5), 'O(H)2': (-3.0, 4.0)}
 OPS = ['decompose M0', 'decompose M1', 'estimate+evaluate latest', 'merge L into another library',
-       'construct a scheme with include= and default arguments', 'merge another library into a copy target']
+       'construct a scheme with include= and default arguments', 'merge another library into a copy target',
+       'merge conflicting data into the other library with overwrite']
 BOUNDS = {
     'quick': 'every history of <= 4 operations drawn from 6 kinds over 2 abstract molecules and 3 library objects, followed by '
              'four probes (estimate from an EARLIER decomposition incl. the elemental reference, a new decomposition, library '
@@ -93,6 +95,8 @@ def h_history(d: bool):
         L = _lib(scheme, inc, ['C(H)', 'O(H)2'])
         other = _lib(scheme, inc, [])
         donor = _lib(scheme, inc, ['C(H)'])
+        conflicting = LB.GroupLibrary(scheme, dict((g, {'thermochem': inc.ThermochemIncomplete(9.0, 9.0, {}, 298.15, None)})
+                                                   for g in DATA))
         d0 = L.GetDescriptors('M0')                 # the EARLIER decomposition the probe will estimate from
         latest = ('M0', d0)
         for o in ops:
@@ -105,11 +109,19 @@ def h_history(d: bool):
                 e.get_SoR(T, S_elements=True)
                 e.get_HoRT(T)
             elif o == 3:
-                other.Update(L)
+                try:
+                    other.Update(L)
+                except ReadOnlyDataError:
+                    pass            # a rejected merge is a legitimate outcome of a history step
             elif o == 4:
                 SC.GroupAdditivityScheme(include=[scheme])
             elif o == 5:
-                other.Update(donor)
+                try:
+                    other.Update(donor)
+                except ReadOnlyDataError:
+                    pass
+            elif o == 6:
+                other.Update(conflicting, overwrite=True)
         # ---- probes -------------------------------------------------------------------------------------
         if dict(d0) != EXPECT['M0']:
             return finish(False, 'an earlier decomposition result was changed by later operations')
